@@ -98,26 +98,23 @@ pub struct St {
     res: Arc<Resources>,
 }
 
-/// Parse the requests currently queued at the peer without consuming them.
-fn peek_requests(fd: RawFd) -> Vec<(u32, u32, Vec<u8>)> {
-    let mut buf = vec![0u8; 1 << 16];
+/// What is queued at the peer, without consuming it: the header of the first request if that request
+/// is completely there (code, flags, body size), and the total number of queued bytes. The library
+/// may write one message with several sendmsg calls (and a peek does not cross a segment that
+/// carries descriptors), so completeness is decided with FIONREAD, not with the peeked length.
+fn wire_state(fd: RawFd) -> (Option<(u32, u32, usize)>, usize) {
+    let total = sysshim::pending_bytes(fd);
+    let mut hdr = [0u8; 12];
     // SAFETY: recv with MSG_PEEK|MSG_DONTWAIT into a local buffer.
-    let n = unsafe { libc::recv(fd, buf.as_mut_ptr() as *mut libc::c_void, buf.len(), libc::MSG_PEEK | libc::MSG_DONTWAIT) };
-    if n <= 0 {
-        return vec![];
+    let n = unsafe { libc::recv(fd, hdr.as_mut_ptr() as *mut libc::c_void, 12, libc::MSG_PEEK | libc::MSG_DONTWAIT) };
+    if n < 12 {
+        return (None, total);
     }
-    buf.truncate(n as usize);
-    let mut out = Vec::new();
-    let mut p = 0;
-    while buf.len() - p >= 12 {
-        let size = rd32(&buf, p + 8) as usize;
-        if buf.len() - p < 12 + size {
-            break;
-        }
-        out.push((rd32(&buf, p), rd32(&buf, p + 4), buf[p + 12..p + 12 + size].to_vec()));
-        p += 12 + size;
+    let size = rd32(&hdr, 8) as usize;
+    if total < 12 + size {
+        return (None, total);
     }
-    out
+    (Some((rd32(&hdr, 0), rd32(&hdr, 4), size)), total)
 }
 
 fn awaits_reply(kind: u8, code: u32, flags: u32, size: usize) -> bool {
@@ -263,23 +260,24 @@ impl Scenario for Sc10 {
     }
 
     fn env_enabled(&self, s: &St, _i: usize) -> bool {
-        !peek_requests(s.peer.as_raw_fd()).is_empty()
+        wire_state(s.peer.as_raw_fd()).0.is_some()
     }
 
     fn env_step(&self, s: &mut St, _i: usize, x: &mut Exec) -> String {
-        let q = peek_requests(s.peer.as_raw_fd());
-        let (code, flags, payload) = q[0].clone();
+        let (first, total) = wire_state(s.peer.as_raw_fd());
+        let (code, flags, size) = first.expect("peer step without a complete request");
         // consume exactly this one request
-        let mut left = 12 + payload.len();
-        while left > 0 {
-            match recv_once(s.peer.as_raw_fd(), left) {
-                Some((b, _)) if !b.is_empty() => left -= b.len(),
+        let mut msg: Vec<u8> = Vec::new();
+        while msg.len() < 12 + size {
+            match recv_once(s.peer.as_raw_fd(), 12 + size - msg.len()) {
+                Some((b, _)) if !b.is_empty() => msg.extend_from_slice(&b),
                 _ => break,
             }
         }
+        let payload: Vec<u8> = msg.get(12..).map(|p| p.to_vec()).unwrap_or_default();
         // a reply-awaiting request must be alone: nothing may have been written behind it
-        if awaits_reply(s.kind, code, flags, payload.len()) && q.len() > 1 {
-            x.violation("C10:second-request-behind-awaited-request", &format!("request code {code} awaits a reply but {} more request(s) were already written behind it: {:?}", q.len() - 1, q.iter().skip(1).map(|r| r.0).collect::<Vec<_>>()));
+        if awaits_reply(s.kind, code, flags, payload.len()) && total > 12 + size {
+            x.violation("C10:second-request-behind-awaited-request", &format!("request code {code} awaits a reply but {} more byte(s) of another request were already written behind it", total - 12 - size));
         }
         s.answered += 1;
         if s.kind == 0 {
@@ -327,9 +325,9 @@ impl Scenario for Sc10 {
     fn after_step(&self, s: &mut St, _info: &StepInfo, x: &mut Exec) {
         // no request may be written while a reply is still unread at the endpoint
         let unread = sysshim::pending_bytes(s.ep_fd);
-        let q = peek_requests(s.peer.as_raw_fd());
-        if unread > 0 && !q.is_empty() {
-            x.violation("C10:request-written-before-reply-consumed", &format!("a reply of {unread} byte(s) is still unread while request(s) {:?} are already on the wire", q.iter().map(|r| r.0).collect::<Vec<_>>()));
+        let (_, total) = wire_state(s.peer.as_raw_fd());
+        if unread > 0 && total > 0 {
+            x.violation("C10:request-written-before-reply-consumed", &format!("a reply of {unread} byte(s) is still unread while {total} byte(s) of another request are already on the wire"));
         }
     }
 
